@@ -62,6 +62,10 @@ def shards(tier):
         for op in dfbfs.menu(M, seen):
             if op["op"] in dfbfs.INPLACE:
                 out.append({"part": "bfs", "init": init, "prefix": [op], "depth": 2 if not big else 3})
+    # frames WITHOUT any non-numeric column (a matrix-style shortcut applies only to those), holding integers
+    # that float64 cannot represent
+    for kind in ("f8", "i8", "u1", "b1"):
+        out.append({"part": "numeric", "kind": kind, "n": 4 if big else 3})
     # width ladder: many sort keys at once
     for nk in ([6, 12] if not big else [6, 12, 40]):
         out.append({"part": "manykeys", "nk": nk})
@@ -172,7 +176,27 @@ def check_case(case, rec):
     rec.sample({"cols": cols, "keys": keys, "dirs": case["dirs"][:1]})
 
 
+def numeric_payload(n):
+    return [["id", "i8", list(range(n))],
+            ["big", "i8", [9007199254740993 + 2 * ((i * 5) % 7) for i in range(n)]],   # 2**53 + 1, + 3, ...: odd, not floats
+            ["q", "f8", [None if i % 3 == 0 else repr(i + 0.5) for i in range(n)]],
+            ["w", "u1", [(i * 37) % 256 for i in range(n)]]]
+
+
 def run_shard(shard, rec):
+    if shard["part"] == "numeric":
+        kind = shard["kind"]
+        alpha = V.alphabet(kind, "key")
+        for toks in V.seqs(alpha, 0, shard["n"]):
+            m = len(toks)
+            check_case({"cols": [["k", kind, list(toks)]] + numeric_payload(m), "keys": ["k"], "dirs": [[1], [-1]]}, rec)
+            check_case({"cols": [["k", kind, list(toks)]] + numeric_payload(m), "keys": ["k", "w"], "dirs": [[1, -1], [-1, 1]]}, rec)
+        for length in (17, 40):
+            for p in (1, 2, 3):
+                for pat in itertools.product(alpha, repeat=p):
+                    toks = [pat[i % p] for i in range(length)]
+                    check_case({"cols": [["k", kind, toks]] + numeric_payload(length), "keys": ["k"], "dirs": [[1], [-1]]}, rec)
+        return
     if shard["part"] == "manykeys":
         nk = shard["nk"]
         kinds = [KINDS[j % len(KINDS)] for j in range(nk)]
